@@ -199,6 +199,46 @@ CLAIMS = {
     ),
 }
 
+# rules added after the first round of independent seeded changes (appended to the claim texts and techniques above)
+ADDED = {
+    "C01": (" Also: every path through the append routine appends (an admitted message is never dropped); the CRC accumulator is not re-initialised between a fold and the trailer. "
+            "Single-caller static helpers of the sender unit are inlined into their callers before the rules run.",
+            "; must-pass-through (append), re-initialisation path rule, model-level inlining of helpers"),
+    "C02": (" Also: a polled byte is used only after the success flag of that poll was tested; every byte is compared with the delimiter before it can be stored as payload.",
+            "; taint path rule on the read callback's result, delimiter must-pass-through"),
+    "C04": (" Also: held messages leave their queue first-in-first-out and are never overtaken by a directly admitted one; every path through the stall-notice handler records the notice.",
+            "; FIFO/no-overtake rule on the deferred queue, must-write path rule in the stall handler"),
+    "C05": (" Also: no message overtakes held ones (numbers are stamped before admission), the append routine never drops a numbered message, the message is assembled in storage private to the call.",
+            "; no-overtake and must-append rules, provenance of the assembly buffer"),
+    "C06": (" The 128 bound may equally be enforced by a trim loop after the append, provided every wrapper runs it before releasing the queue mutex (path-sensitive must-follow).",
+            "; path-sensitive must-follow (trim before unlock)"),
+    "C08": (" The must-follow rule follows boolean 'changed' flags and helper results exactly (|= accumulates, = does not).",
+            "; constant-propagating pending-event walk with helper summaries"),
+    "C09": (" Also: every node-new notice for a configured board rewrites the stored address the commands use.",
+            "; must-write path rule in the connect routine"),
+    "C10": (" Also: the user's write callback is only invoked with the send-buffer mutex held (never by two threads at once).",
+            "; lockset at every callback invocation"),
+    "C12": (" Also: every byte is compared with the packet delimiter before it can be stored as payload (a packet cut off after an escape byte cannot swallow the next one).",
+            "; delimiter must-pass-through"),
+    "C13": (" Also: every file / YAML parser opened while reading the configuration is closed / deleted on every path, with the acquiring helper analysed inlined into its callers.",
+            "; acquire/release typestate over all paths with constant propagation and helper inlining"),
+    "C15": (" Also: in the connect / lost routines every path on which the board lookup succeeded writes the connected flag and (connect) the node address, unless it first compared the current value.",
+            "; must-write path rule behind the found edge"),
+    "C16": (" Also: in the start routines every call that changes library state lies inside the !running guard (start while running is a no-op).",
+            "; effect summary + guard dominance in the start routines"),
+    "C17": (" Also: once the entity was found, no path of a single getter returns without reading every copied field (no early return on another field of the entity). Void static copy helpers are inlined into their callers first.",
+            "; must-read path rule behind the found edge, model-level inlining of copy helpers"),
+    "C18": (" Also: bit-layout documentation ('100HHHHH, value range 0...23') is turned into the accepted byte set; the message is assembled in storage private to the call; mutable global arrays used by the constructors are bounds-checked as well.",
+            "; bit-layout range oracle, provenance of the assembly buffer"),
+    "C19": (" The flush may sit in the dispatcher's caller if every path with a buffered mirror reaches it (boolean result / flag correlation followed exactly).",
+            "; path-sensitive must-follow across the dispatcher's return value"),
+    "C20": (" Also: no initial-value command is issued under a condition on tracked feedback state; the connected flag / node address that gate and direct the start-up commands have fixed writers.",
+            "; guard-provenance rule (no feedback state), writer roles of the gating fields"),
+}
+for _k, (_t, _q) in ADDED.items():
+    CLAIMS[_k]["text"] = CLAIMS[_k]["text"] + _t
+    CLAIMS[_k]["technique"] = CLAIMS[_k]["technique"] + _q
+
 NOT_APPLICABLE = {
     "C14": ("Biconditional over all configurations plus value equality between YAML content and getter output: no clause is decided by program "
             "shape alone. Structural neighbours (error propagation, parser range checks tied to memory safety, crash freedom of rejection paths) are hosted under C13/C09 and are not a claim on C14."),
